@@ -3,7 +3,6 @@ package renderb
 import (
 	"fmt"
 	"runtime"
-	"sort"
 	"strings"
 	"sync/atomic"
 	"time"
@@ -11,7 +10,6 @@ import (
 	"oss.terrastruct.com/d2/d2renderers/d2ascii"
 	"oss.terrastruct.com/d2/d2renderers/d2ascii/charset"
 	"oss.terrastruct.com/d2/d2renderers/d2svg"
-	"oss.terrastruct.com/d2/d2target"
 	"verif/h/eng"
 	"verif/h/u"
 )
@@ -25,7 +23,7 @@ var c32PlainShapes = []string{
 
 var c32OtherShapes = []string{"class", "sql_table", "text", "code", "image", "sequence_diagram", "hierarchy"}
 
-var c32Labels = []string{"", "x", "hello", "é", "a b"}
+var c32Labels = []string{"", "x", "hello", "é", "a b", "héllo"}
 
 // second statement(s): connections with labels and arrowheads, containers, multiple, direction, label positions.
 var c32Contexts = []string{
@@ -149,7 +147,7 @@ func c32Oracle(in string) eng.Res {
 			if cs == charset.ASCII {
 				for _, r := range text {
 					if r >= 0x80 && !labelRunes[r] {
-						return eng.Bad("non-ascii-outside-labels:"+c32ShapeKinds(d),
+						return eng.Bad(fmt.Sprintf("non-ascii-outside-labels:U+%04X", r),
 							fmt.Sprintf("standard charset, scale %s: U+%04X %q is no label character\nd2:\n%s\noutput:\n%s", sc.name, r, r, in, text))
 					}
 				}
@@ -185,37 +183,25 @@ func c32Oracle(in string) eng.Res {
 	return eng.OK(strings.Join(outcome, " "), true)
 }
 
-func c32ShapeKinds(d *d2target.Diagram) string {
-	m := map[string]bool{}
-	for _, s := range d.Shapes {
-		m[s.Type] = true
-	}
-	ks := make([]string, 0, len(m))
-	for k := range m {
-		ks = append(ks, k)
-	}
-	sort.Strings(ks)
-	return strings.Join(ks, "+")
-}
-
 func init() {
 	eng.Register(&eng.Check{
 		ID: "C32", Level: "exploration", HangBound: 900 * time.Second,
 		QuickBudget: 110 * time.Second, ThoroughBudget: 24 * time.Minute,
-		Rule: "diagram = object a with (shape in all 18 plain shapes + class, sql_table, text, code, image, sequence_diagram, hierarchy) x (label in {none, x, hello, é, 'a b'}) x (context in 15: none, connections in every arrow direction with and without labels, arrowhead shape+labels, self loop, container with crossing connection, multiple, direction right, inside/outside label positions, a as container, two opposite connections, animated connection to a labelled circle); laid out by ELK through d2lib.Compile as d2cli does for txt output, rendered by d2ascii in both character sets and scales {default, 0.5, 2}; non-trivial = the diagram compiled and was rendered",
+		Rule: "diagram = object a with (shape in all 18 plain shapes + class, sql_table, text, code, image, sequence_diagram, hierarchy) x (label in {none, x, hello, é, 'a b', héllo}) x (context in 15: none, connections in every arrow direction with and without labels, arrowhead shape+labels, self loop, container with crossing connection, multiple, direction right, inside/outside label positions, a as container, two opposite connections, animated connection to a labelled circle); laid out by ELK through d2lib.Compile as d2cli does for txt output, rendered by d2ascii in both character sets and scales {default, 0.5, 2}; non-trivial = the diagram compiled and was rendered",
 		Assumptions: []string{
 			"'label characters' = every rune of any shape label, class/table member text, connection label or arrowhead label of the diagram; in the standard charset every other output rune must be < 0x80",
 			"'plain shape' = the 18 frame-with-one-label shapes, not being a container; class, sql_table, text, code, image and diagram-typed shapes and containers are checked for totality and 7-bit only",
 			"label visibility (the label is a substring of one output line) is demanded at the default scale only; at scales 0.5 and 2 only totality and 7-bit are checked, since the statement does not say labels must fit a shrunken grid",
-			"quick tier leaves out the non-plain shapes x non-empty contexts and two of the five labels for them; see phases",
+			"quick tier uses the first 13 contexts for plain shapes and the first five for the structured (non-plain) shapes; thorough adds the rest and all ordered pairs of plain shapes joined by a labelled connection",
 		},
 		Oracles: map[string]eng.Oracle{"ascii": c32Oracle},
 		Run: func(w *eng.W) {
 			runtime.GOMAXPROCS(2)
-			w.Phase("plain shapes x labels x contexts", func() {
+			nctx := w.Pick(13, len(c32Contexts))
+			w.Phase(fmt.Sprintf("plain shapes x labels x first %d contexts", nctx), func() {
 				for _, s := range c32PlainShapes {
 					for _, l := range c32Labels {
-						for _, c := range c32Contexts {
+						for _, c := range c32Contexts[:nctx] {
 							w.Eval("ascii", c32Source(s, l, c))
 						}
 					}
